@@ -277,12 +277,12 @@ def case_lm(H, kind, damping, clamp):
 def run(H):
     H.assumptions += ['exact real arithmetic', 'valid group parameters', 'steps returned by the (arbitrary) solver keep the retraction on its closed-form branch '
                       '(|rotation part of D| > 1e-3); tiny steps are C01/C05', 'default solvers meet their contract: C10']
-    H.bounds += ['model programs: SO3 Act (2 points), SE3 + Euclidean + frozen parameter (1 point), so3 algebra parameter with two residual outputs',
+    H.bounds += ['model programs: SO3 Act (2 points), SE3 + Euclidean + frozen parameter (1 point; frozen parameter registered last and first), so3 algebra parameter with two residual outputs',
                  'weights: one SPD 3x3 block shared by all items (GN)', 'LM: Constant strategy, damping in {1e-6, 0.5}, clamps active and inactive, reject=1',
                  'the sparse backend (bae) is not installed: sparse=True is outside']
     only = getattr(H, 'only', None)
     jobs = []
-    for kind in ('SO3-act', 'SE3+euclid+frozen', 'so3-algebra+two-outputs'):
+    for kind in ('SO3-act', 'SE3+euclid+frozen', 'frozen+SE3+euclid', 'so3-algebra+two-outputs'):
         jobs.append(lambda k=kind: case_gn(H, k, False, True))
     jobs.append(lambda: case_gn(H, 'SO3-act', True, True))
     jobs.append(lambda: case_gn(H, 'SO3-act-batched', True, True))
